@@ -160,7 +160,7 @@ def driver_args(ctx, binp, adlt, scn, trace, nrand):
     quick = ctx.quick()
     return [binp, "--adlt", adlt, "--work", ctx.work, "--scenarios", scn, "--random", str(nrand), "--seed", str(ctx.seed),
             "--out", trace, "--conns", "12", "--long-max", "120" if quick else "200", "--big", "6000" if quick else "40000",
-            "--huge", "560000", "--huge-wait-ms", "5000"]      # > 512 Ki messages: more than the server's bounded channels hold
+            "--huge", "560000", "--huge-wait-ms", "5000", "--random-numeric", "10" if quick else "150"]      # > 512 Ki messages: more than the server's bounded channels hold
 
 
 def check(ctx):
@@ -175,7 +175,8 @@ def check(ctx):
         c.tlc_must_pass(ctx, "model-full", "Remote.tla", "Remote_thorough_full.cfg", timeout=3000)
     # (b) scenario emission
     hists = []
-    plan = [("Remote_emit_quick.cfg", 1150), ("Remote_emit_multi.cfg", 250), ("Remote_emit_onepass.cfg", 250)] if quick else [
+    plan = [("Remote_emit_quick.cfg", 1150), ("Remote_emit_multi.cfg", 250), ("Remote_emit_onepass.cfg", 250),
+            ("Remote_emit_numeric.cfg", 400)] if quick else [("Remote_emit_numeric4.cfg", 3000),
         ("Remote_emit_full2.cfg", 8000), ("Remote_emit_quick.cfg", 6000), ("Remote_emit_core4.cfg", 6000), ("Remote_emit_multi.cfg", 3000),
         ("Remote_emit_onepass.cfg", 3000)]
     emitted = 0
@@ -183,7 +184,11 @@ def check(ctx):
         res = c.tlc_must_pass(ctx, "emit-" + cfg.split("_emit_")[1].split(".")[0], "Remote.tla", cfg, timeout=3000)
         hs = letters(res)
         emitted += len(hs)
-        hists += sample_multi(hs, cap, rnd) if "multi" in cfg else sample_onepass(hs, cap, rnd) if "onepass" in cfg else sample_histories(hs, cap, rnd)
+        if "numeric" in cfg:
+            rnd.shuffle(hs)
+            hists += hs[:cap]
+        else:
+            hists += sample_multi(hs, cap, rnd) if "multi" in cfg else sample_onepass(hs, cap, rnd) if "onepass" in cfg else sample_histories(hs, cap, rnd)
     scn = ctx.path("scenarios.ndjson")
     with open(scn, "w") as f:
         for h in hists:
